@@ -353,6 +353,17 @@ fn random_op(rng: &mut Rng, lang: &str, allow_clear: bool, last_q: &mut Option<S
         if rng.chance(1, 4) {
             return Op::Search(if rng.chance(1, 3) { format!("{} ", q) } else { q });
         }
+        if rng.chance(1, 6) && q.chars().count() > 21 {
+            // the previous long query again with its last letters changed (same length, same first 20 letters)
+            let mut cs: Vec<char> = q.chars().collect();
+            let n = cs.len();
+            for k in (n - n.min(6))..n {
+                cs[k] = *rng.pick(&gen::lower_alphabet(lang));
+            }
+            let other: String = cs.into_iter().collect();
+            *last_q = Some(other.clone());
+            return Op::Search(other);
+        }
         if rng.chance(1, 5) && q.chars().count() < 12 {
             // type-ahead: the previous query plus one more letter (following a known word where possible)
             let words = ["metal", "mailbox", "yellow", "shirt", "caramel", "melon", "meter", "straße", "microbiologically"];
@@ -1145,6 +1156,7 @@ impl Prop for History {
                 Stream::new("corpus", 64, 1600).asan(64),
                 Stream::new("soak", 16, 64).asan(4),
                 Stream::new("registry", 4000, 120000).asan(4000),
+                Stream::new("codepoints", 256, 256).asan(256),
             ],
             Which::NoStale => vec![Stream::new("random", 48000, 2400000).miri(12), Stream::new("exhaustive", NL * 81, NL * 81).miri(0), Stream::new("soak", 16, 64)],
             Which::Registry => vec![Stream::new("core", 16000, 800000).miri(8), Stream::new("bridge", 4000, 200000).miri(4)],
@@ -1152,7 +1164,7 @@ impl Prop for History {
     }
     fn floors(&self) -> Vec<(&'static str, u64, u64)> {
         match self.0 {
-            Which::NoCrash => vec![("searches", 20000, 200000), ("searches with hits", 5000, 50000), ("joined-record hits (two spans from a one-word query)", 50, 500), ("non-ASCII queries", 2000, 20000), ("limit 0", 200, 2000), ("limit 65536", 200, 2000), ("histories with boundary-value record ids", 2000, 20000), ("long-text searches", 500, 5000), ("long-text searches with a query over 255 characters", 100, 1000), ("corpus-store searches", 300, 3000), ("long-text cases with a giant word or a 1000+ word title", 20, 200), ("soak searches on one store", 600000, 2500000), ("most searches on one store max ", 66000, 66000), ("soak stores with more than 2^16 records", 2, 8), ("adds re-using the id of an earlier record", 5000, 50000), ("registry: searches", 10000, 300000), ("registry: searches with hits", 1500, 45000), ("registry: limit changes", 5000, 150000), ("registry: readers that call back into the registry", 1500, 45000)],
+            Which::NoCrash => vec![("searches", 20000, 200000), ("searches with hits", 5000, 50000), ("joined-record hits (two spans from a one-word query)", 50, 500), ("non-ASCII queries", 2000, 20000), ("limit 0", 200, 2000), ("limit 65536", 200, 2000), ("histories with boundary-value record ids", 2000, 20000), ("long-text searches", 500, 5000), ("long-text searches with a query over 255 characters", 100, 1000), ("corpus-store searches", 300, 3000), ("long-text cases with a giant word or a 1000+ word title", 20, 200), ("soak searches on one store", 600000, 2500000), ("most searches on one store max ", 66000, 66000), ("soak stores with more than 2^16 records", 2, 8), ("adds re-using the id of an earlier record", 5000, 50000), ("registry: searches", 10000, 300000), ("registry: searches with hits", 1500, 45000), ("registry: limit changes", 5000, 150000), ("registry: readers that call back into the registry", 1500, 45000), ("code points put through a store", 1000000, 1000000)],
             Which::NoStale => vec![("search after add following an earlier search", 2000, 20000), ("search after clear following an earlier search", 500, 5000), ("search after limit following an earlier search", 500, 5000), ("empty-query search after a mutation following an earlier search", 1000, 10000), ("exhaustive histories", 20000, 200000), ("histories on a crowded store", 2000, 20000), ("histories that clear and refill a crowded store", 2000, 20000), ("histories growing a store past 64/128/256/512 records with searches in between", 200, 5000), ("histories growing a store past 1024 records with searches in between", 60, 1500), ("soak searches on one store", 1000000, 4000000), ("search repeating the previous query after a mutation", 2000, 20000), ("operations on another store of the same thread inside a history", 3000, 30000), ("registry-driven searches compared with a fresh store", 5000, 50000), ("adds re-using the id of an earlier record", 3000, 30000), ("histories whose searches run on other threads than the adds (the store is moved there and back)", 1500, 15000), ("histories whose reference stores are built and searched on threads of their own", 3000, 30000), ("histories with a very long word next to a threshold match", 2000, 20000), ("histories with more than twenty fully tied records and a shrinking limit", 2000, 20000), ("histories with two lives of the same size ending in the same query", 2000, 20000), ("histories in which a text is followed by its own normalised spelling", 2000, 20000)],
             Which::Registry => vec![("observations", 20000, 200000), ("observations with >= 2 live ids holding results", 2000, 20000), ("destroy", 300, 3000), ("searches", 3000, 30000), ("histories over 4-20 store ids", 1000, 10000), ("bursts of 45-120 records", 300, 3000), ("stores created with another language than their neighbours", 3000, 30000), ("searches repeating the text just sent to another id", 2000, 20000), ("histories whose result buffers are read only now and then", 5000, 50000), ("reads that add a record from inside the reader", 5000, 50000), ("searches repeated on the same id after a limit change", 5000, 50000), ("stores emptied in place through using_store", 2000, 20000), ("histories whose model stores answer on threads of their own", 5000, 50000), ("searches repeating the text this id was sent last", 3000, 30000), ("ids destroyed and created again under another language, then sent the same text", 3000, 30000)],
         }
@@ -1163,6 +1175,36 @@ impl Prop for History {
             (Which::NoCrash, "hist") => self.c01_case(cx, lang),
             (Which::NoCrash, "long") => self.c01_long(cx, lang),
             (Which::NoCrash, "registry") => self.c01_registry(cx, lang),
+            (Which::NoCrash, "codepoints") => {
+                // every Unicode scalar value (4352 per case) in titles and queries of one store: inside words, at word
+                // starts, alone; added, searched as typed and as part of a longer query; every hit list traced
+                let lang = LANGS[((idx / 3) % NL) as usize];
+                let mut st = St::sentinel(lang, 5);
+                let lo = idx as u32 * 4352;
+                let mut chunk: Vec<char> = vec![];
+                let mut k = 0usize;
+                for v in lo..lo + 4352 {
+                    if let Some(c) = std::char::from_u32(v) {
+                        chunk.push(c);
+                        if chunk.len() == 16 {
+                            let title: String = chunk.iter().map(|c| format!("x{}y {}z ", c, c)).collect();
+                            cx.ctx(format!("C01 codepoints lang={} title/query with U+{:04X}..U+{:04X}", lang, chunk[0] as u32, chunk[15] as u32));
+                            st.add(&(k, title.clone(), k));
+                            k += 1;
+                            let q1: String = format!("x{}y", chunk[3]);
+                            let q2: String = format!("{}z {}", chunk[7], chunk[11]);
+                            for q in [q1, q2, title.chars().take(12).collect::<String>()].iter() {
+                                let hits = st.search(q);
+                                cx.eval();
+                                cx.trace_hits(&hits);
+                            }
+                            chunk.clear();
+                        }
+                    }
+                }
+                cx.count_n("code points put through a store", 4352);
+                cx.key(hparts(&[lang, &lo.to_string(), "codepoints"]));
+            }
             (Which::NoCrash, "soak") => self.c01_soak(cx, lang),
             (Which::NoStale, "soak") => c10_soak(cx, lang),
             (Which::NoCrash, "corpus") => self.c01_corpus(cx, if idx % 2 == 0 { "en" } else { "none" }),
